@@ -69,6 +69,15 @@ impl WorkbookXML {
     }
 }
 
+/// The number in a `<v>` element; text that is not a finite number (NaN, inf, 1E+999) reads as 0
+fn parse_cell_number(cell_value: Option<&str>) -> f64 {
+    cell_value
+        .unwrap_or("0")
+        .parse::<f64>()
+        .ok()
+        .filter(|v| v.is_finite())
+        .unwrap_or(0.0)
+}
 fn parse_cell_reference(cell: &str) -> Result<(i32, i32), String> {
     if let Some(r) = parse_reference_a1(cell) {
         Ok((r.row, r.column))
@@ -369,15 +378,13 @@ fn get_cell_from_excel(
             "n" => {
                 if let Some(anchor) = anchor_cell {
                     Cell::SpillCell {
-                        v: SpillValue::Number(
-                            cell_value.unwrap_or("0").parse::<f64>().unwrap_or(0.0),
-                        ),
+                        v: SpillValue::Number(parse_cell_number(cell_value)),
                         s: cell_style,
                         a: anchor,
                     }
                 } else {
                     Cell::NumberCell {
-                        v: cell_value.unwrap_or("0").parse::<f64>().unwrap_or(0.0),
+                        v: parse_cell_number(cell_value),
                         s: cell_style,
                     }
                 }
@@ -484,9 +491,7 @@ fn get_cell_from_excel(
         };
         match cell_type {
             "b" => make_cell(FormulaValue::Boolean(cell_value == Some("1"))),
-            "n" => make_cell(FormulaValue::Number(
-                cell_value.unwrap_or("0").parse::<f64>().unwrap_or(0.0),
-            )),
+            "n" => make_cell(FormulaValue::Number(parse_cell_number(cell_value))),
             "e" => {
                 // For compatibility reasons Excel does not put the value #SPILL! but adds it as a metadata
                 // Older engines would just import #VALUE!
